@@ -187,6 +187,14 @@ def judge(ck, desc, cls, res, fluid, t, pp, sched, m_i, m_f):
         rise = pp[1:, 1:] - pp[:-1, 1:]
         worst = float(np.max(rise))
         mono = wl.dt_monotone(t)
+        if mono and cls != "ideal" and worst > tol:
+            # a grid whose steps never shrink can still JUMP (blocks of equal steps, x4 from one block to
+            # the next): "a long step after much shorter ones" is K5's mechanism whatever the grid family
+            # is called - sweep #10 met it on dyadic-blocks grids whose block sizes happened to be sorted
+            i_ = int(np.unravel_index(int(np.argmax(rise)), rise.shape)[0])
+            dts_ = np.diff(t)
+            if i_ >= 1 and dts_[i_] >= 2.0 * dts_[i_ - 1]:
+                mono = False
         if mono or cls == "ideal":
             ck.count("runs_time_monotonicity_strict")
             if not ck.margin("non-increasing in t (monotone dt)", max(worst, 0.0), tol):
